@@ -9,6 +9,7 @@ against the assumptions current at that point.
 Fail-closed: any construct without a rule raises `Unsupported`.
 """
 import ast
+import os
 import time
 import z3
 
@@ -166,6 +167,7 @@ class Engine:
         self.const_overrides = {}
         self.auto_inline = True
         self.abstract_isinstance = True
+        self.float_rounding = os.environ.get("VERIF_FLOAT_REAL") != "1"
         self._inline_depth = 0
         self.ext_base_methods = {}
         self.modattrs = {}
@@ -1067,7 +1069,7 @@ class Engine:
                                   "(only division, subtraction-with-representability, comparisons and "
                                   "integer conversions are encoded)" % type(op).__name__)
             if isinstance(op, ast.Add):
-                return Fl(R(a) + R(b)) if fl else a + b
+                return Fl(self.frnd("+", a, b, R(a) + R(b))) if fl else a + b
             if isinstance(op, ast.Sub):
                 if fl:
                     h = self.st.ghost.get("fsub")
@@ -1076,7 +1078,7 @@ class Engine:
                         return r_ if isinstance(r_, Fl) else Fl(r_)
                     if self.float_strict:
                         raise Unsupported("float subtraction without a representability hook")
-                return Fl(R(a) - R(b)) if fl else a - b
+                return Fl(self.frnd("-", a, b, R(a) - R(b))) if fl else a - b
             if isinstance(op, ast.Mult):
                 if fl:
                     return Fl(self.fmul(a, b))
@@ -1184,9 +1186,64 @@ class Engine:
             return z3.simplify(b.t == 0)
         return I(b) == 0
 
+    def frnd(self, op, a, b, exact):
+        """Result of the binary64 operation `a op b` whose exact real value is `exact`.
+
+        Concrete operands: the IEEE result itself (computed by CPython on the same doubles).  Symbolic operands: RND(exact),
+        RND an uninterpreted function Real -> Real of which only this is assumed (instantiated at every application):
+        it preserves sign (no underflow to zero), is the identity on 0, and never crosses an integer in [-2**53, 2**53]
+        that the exact value does not cross -- stated for floor(exact), ceil(exact) and +-2**53 (monotonicity of correct
+        rounding + exact representability of those integers).  Two float expressions are therefore equal only if they are the same
+        computation, or can be shown equal from these facts -- algebraic identities of the reals such as (n / r) * r == n
+        are NOT available.  Overflow to infinity and underflow to zero are not modelled (assumption)."""
+        if not self.float_rounding:
+            return exact
+        ca, cb = _as_double(a), _as_double(b)
+        if ca is not None and cb is not None:
+            try:
+                r = {"+": ca + cb, "-": ca - cb, "*": ca * cb, "/": (ca / cb) if cb != 0 else None}[op]
+            except OverflowError:
+                r = None
+            if r is not None and r == r and r not in (float("inf"), float("-inf")):
+                return Fl(r).t
+        # name the exact value (it is usually a nonlinear term): the facts below are then linear in that name
+        memo = self.st.ghost.setdefault("frnd_memo", {})
+        key = exact.sexpr()
+        if key in memo:
+            return memo[key]
+        ex = z3.Real(fresh_name("fl.exact"))
+        self.assume(ex == exact)
+        exact = ex
+        t = _RND(exact)
+        memo[key] = t
+        lo = z3.ToReal(z3.ToInt(exact))            # floor(exact)
+        hi = z3.If(lo == exact, lo, lo + 1)        # ceil(exact)
+        self.assume(z3.And(z3.Implies(exact > 0, t > 0), z3.Implies(exact < 0, t < 0), z3.Implies(exact == 0, t == 0)))
+        big = z3.RealVal(2 ** 53)
+        self.assume(z3.Implies(z3.And(exact >= -big, exact <= big), z3.And(lo <= t, t <= hi)))
+        # consequences of the line above, spelled out for the integer parts (the solver does not derive them when the
+        # path condition also holds nonlinear terms): floor(exact) <= floor(t) <= floor(exact) + 1, and for the negations
+        fe, ft, fne, fnt = z3.ToInt(exact), z3.ToInt(t), z3.ToInt(-exact), z3.ToInt(-t)
+        self.assume(z3.Implies(z3.And(exact >= -big, exact <= big),
+                               z3.And(ft >= fe, ft <= fe + 1, fnt <= -fe, fnt >= -fe - 1, fnt >= fne, fnt <= fne + 1)))
+        self.assume(z3.And(z3.Implies(exact >= big, t >= big), z3.Implies(exact <= -big, t <= -big)))
+        return t
+
     def fmul(self, a, b):
         ra, rb = R(a), R(b)
-        return ra * rb
+        return self.frnd("*", a, b, ra * rb)
+
+    # the same operations for use in SPECIFICATIONS: a spec that speaks about "t * rate" means the float product the
+    # code computes, so it has to be built with the same rounding function
+    def spec_mul(self, a, b):
+        """Real term of the Python product a * b (int * int exact, otherwise the binary64 product)."""
+        if is_int(a) and is_int(b):
+            return R(imul(a, b))
+        return self.fmul(a, b)
+
+    def spec_div(self, a, b):
+        """Real term of the Python true division a / b (always a float)."""
+        return self.frnd("/", a, b, R(a) / R(b))
 
     def fdiv(self, a, b):
         h = self.st.ghost.get("fdiv")
@@ -1194,7 +1251,7 @@ class Engine:
             return h(a, b)
         if self.float_strict:
             raise Unsupported("float division without a quotient hook")
-        return R(a) / R(b)
+        return self.frnd("/", a, b, R(a) / R(b))
 
     def e_Compare(self, e, fr):
         left = self.eval(e.left, fr)
@@ -2239,6 +2296,33 @@ class Havoc:
 
     def __init__(self, name):
         self.name = name
+
+
+_RND = z3.Function("fl.rnd", z3.RealSort(), z3.RealSort())
+
+
+def _as_double(v):
+    """The Python float a numeric VALUE denotes, when it is a concrete number that a double holds exactly."""
+    if isinstance(v, bool):
+        return None
+    if isinstance(v, int):
+        return float(v) if abs(v) <= 2 ** 53 else None
+    t = v.t if isinstance(v, Fl) else (v if is_z3(v) else None)
+    if t is None:
+        return None
+    t = z3.simplify(t)
+    if z3.is_int_value(t):
+        k = t.as_long()
+        return float(k) if abs(k) <= 2 ** 53 else None
+    if z3.is_rational_value(t):
+        import fractions as _fr
+        q = _fr.Fraction(t.numerator_as_long(), t.denominator_as_long())
+        try:
+            f = float(q)
+        except OverflowError:
+            return None
+        return f if _fr.Fraction(f) == q else None
+    return None
 
 
 class Stale:
